@@ -7,6 +7,7 @@ import SchedVerif.Spec.Occ
 import SchedVerif.Spec.Select
 import SchedVerif.Spec.Union
 import SchedVerif.Spec.Render
+import SchedVerif.Spec.Linearize
 namespace SV.Drv
 open SV
 
@@ -21,6 +22,25 @@ def timingP : P Timing := do
   | _ => failure
 
 def okB (b : Bool) : String := if b then "ok" else "fail"
+
+def lopP : P LOp := do
+  let t ← tok
+  match t with
+  | "sched" => do let k ← nat; let r ← bool; pure (.sched k r)
+  | "del" => do let k ← nat; let ok ← bool; pure (.del k ok)
+  | "dtags" => do let any ← bool; let q ← listOf nat; let n ← nat; pure (.dtags q any n)
+  | "get" => do let any ← bool; let q ← listOf nat; let r ← listOf nat; pure (.get q any r)
+  | "jobs" => do let r ← listOf nat; pure (.jobs r)
+  | "str" => do let n ← nat; pure (.str n)
+  | "sel" => do let id ← nat; let f ← bool; let b ← listOf nat; pure (.execSel id b f)
+  | "fin" => do let id ← nat; let r ← listOf nat; pure (.execFin id r)
+  | _ => failure
+
+def lrecP : P LRec := do
+  let inv ← nat; let res ← nat; let op ← lopP
+  pure { op := op, inv := inv, res := res }
+
+def keyTags : P (Nat × List Nat) := do let k ← nat; let t ← listOf nat; pure (k, t)
 
 def keyPrio : P (Nat × Rat) := do let k ← nat; let p ← rat; pure (k, p)
 def keyDueW : P (Nat × Int × Rat) := do let k ← nat; let d ← int; let w ← rat; pure (k, d, w)
@@ -62,6 +82,10 @@ def specP : P String := do
   | "rowlen" => do
       let len ← nat; let widths ← listOf nat
       pure (okB (len == widths.sum + (widths.length - 1) + 1))
+  | "linearizable" => do
+      -- tags table, initial registry, final registry, completed call records
+      let tags ← listOf keyTags; let init ← listOf nat; let final ← listOf nat; let rs ← listOf lrecP
+      pure (okB (linearizableB tags init (sortKeys final) rs))
   | "cadence" => do
       -- the k-th execution (k = 1, 2, …) of a cyclic job belongs to s + k·T (delay) / s + (k-1)·T (no delay)
       let delay ← bool; let sv ← int; let T ← int; let k ← int; let due ← int
